@@ -29,7 +29,10 @@ RULE += (
          ' Plus histories on one enforcer: every sequence of <=3 (thorough'
          ' 4) events from {reply True, reply False, transport fault, remove'
          ' client cert / key / CA file, restore files}, every evaluation'
-         ' judged by the world at that moment.')
+         ' judged by the world at that moment.'
+         " The request space runs with the library's debug logging off and"
+         ' on and with password-like target keys, one of them used to fill'
+         ' the URL.')
 ASSUMPTIONS = ['requests is cut at HTTPAdapter.send; a real requests.Response '
                'is built from the enumerated status/body/headers',
                'reply bytes are ASCII/0xff only (no BOMs, no exotic charsets)']
@@ -372,19 +375,40 @@ def run_request(acc, job):
     creds_list = [{'roles': ['r'], 'user_id': 'u'},
                   {'roles': [], 'nested': {'x': [1, 2]}, 'is_admin': True}]
 
+    targets.append({'name': 'n5', 'password': 'pw', 'auth_token': 'tok',
+                    'nested': {'secret': 's3', 'token': 't'}})
+    import logging
+
+    class H(logging.Handler):
+        def emit(self, record):
+            record.getMessage()
+
     def responder(req, kw):
         return 200, b'True', {}
     with world.HttpStub(responder) as stub:
-        for ct in ('application/x-www-form-urlencoded', 'application/json'):
+        for ct, debug in itertools.product(
+                ('application/x-www-form-urlencoded', 'application/json'),
+                (False, True)):
+            # debug: the library logs a MASKED copy of target and credentials
+            # on every call - the request must still carry the real ones
+            lg = logging.getLogger('oslo_policy')
+            if debug:
+                lg.handlers[:] = [H()]
+                lg.setLevel(logging.DEBUG)
+            else:
+                core.quiet_logging()
             for timeout in (60.0, 3.5):
                 enf = enforcer(ct, remote_timeout=timeout)
                 rules = {}
                 for n in NAMES:
                     rules[n] = 'http://srv.test/v1/%(name)s'
                 rules['secure'] = 'https://srv.test/v1/%(name)s'
+                rules['bytoken'] = 'http://srv.test/v1/%(auth_token)s'
                 world.set_rules(enf, rules)
-                for pname in NAMES + ['secure']:
+                for pname in NAMES + ['secure', 'bytoken']:
                     for target in targets:
+                        if pname == 'bytoken' and 'auth_token' not in target:
+                            continue
                         for creds in creds_list:
                             snap = copy.copy(target)
                             deep = {k: copy.deepcopy(v) for k, v in
@@ -395,7 +419,8 @@ def run_request(acc, job):
                             acc.ev()
                             got = world.decide(enf, pname, target, c2)
                             case = {'policy': pname, 'content_type': ct,
-                                    'target': repr(target), 'creds': creds}
+                                    'target': repr(target), 'creds': creds,
+                                    'debug_logging': debug}
                             if got != ('ok', True) or len(stub.calls) != 1:
                                 acc.violation('request|no-call',
                                               'decision %r with %d calls' %
@@ -405,7 +430,8 @@ def run_request(acc, job):
                             req, kw = stub.calls[0]
                             scheme = 'https' if pname == 'secure' else 'http'
                             want_url = '%s://srv.test/v1/%s' % (
-                                scheme, target['name'])
+                                scheme, target['auth_token' if pname ==
+                                               'bytoken' else 'name'])
                             if urllib.parse.unquote(req.url) != want_url:
                                 acc.violation('request|url',
                                               'request went to %r, expected '
@@ -462,6 +488,7 @@ def run_request(acc, job):
                                               '%r' % (target,), case, snap,
                                               repr(target), 'request')
                             acc.outcome('request-ok')
+    core.quiet_logging()
     acc.sample('request', {'policy': NAMES[2], 'target': 'nested/opaque'})
 
 
